@@ -1,4 +1,4 @@
-import H5V.Lemmas.HtmlTBSkelShapeClone
+import H5V.Lemmas.HtmlTBSkelAdjClone
 /-!
 C06, second invariant layer, part 12: the judgement `RB` for the rules of the body-like modes
 (InBody, InTable, InCaption, InColumnGroup, InTableBody, InRow, InCell, InTemplate):
